@@ -1,1 +1,8 @@
+//! Checks for the feature-gated code of bnum (numtraits, rand): C18, C19, C20.
+pub use refmodel::*;
+pub use vcore::*;
+pub use vengine::*;
 
+pub mod c18;
+pub mod c19;
+pub mod c20;
